@@ -682,6 +682,18 @@ func c10MT(mt int) string {
 // address is among the names clients ask for.
 var c10Hosts = []string{"", "", "alpha", "Alpha", "beta", "my_host", "my-host", "5", "!!!", "a..b", "gw.lan", "x y"}
 
+// c10OddHosts: names that need more normalisation or fail validation: upper
+// case, underscores, leading / trailing hyphens and dots, an all-digit last
+// label, labels of 63 and 64 bytes, names of 253 and more bytes, UTF-8.
+var c10OddHosts = []string{
+	"PRINTER", "Mixed_Case-Host", "-edge-", "--", "-", "_", "a-", "-a", "a--b", ".lead", "trail.", "a.b.", "..", ".",
+	"host.123", "1.2.3.4", "123", "0x10", "a.b-", "a.-b", "a_.b", "tab\there", "caf\xc3\xa9-1", "\xc3\x89COLE", "\xff\xfe",
+	strings.Repeat("a", 63), strings.Repeat("a", 64), strings.Repeat("b", 63) + ".lan", strings.Repeat("b", 64) + ".lan",
+	"x." + strings.Repeat("c", 64), strings.Repeat("d", 50) + "_" + strings.Repeat("d", 13),
+	strings.Repeat(strings.Repeat("e", 49)+".", 5) + "lan", strings.Repeat(strings.Repeat("e", 49)+".", 5) + "lann",
+	strings.Repeat(strings.Repeat("f", 62)+"_", 5), strings.Repeat("g", 254),
+}
+
 // c10History is a fixed list of operations, or (next != nil) a generator that
 // is asked for one operation at a time and told what the server replied.
 type c10History struct {
@@ -694,6 +706,8 @@ type c10History struct {
 	// answer from the start (both only with c10Probe).
 	icmp  bool
 	busy0 []uint32
+	// hosts: further client hostnames the history may use.
+	hosts []string
 }
 
 type c10Gen struct {
@@ -705,6 +719,8 @@ type c10Gen struct {
 	genNames bool
 	// probe: the server may probe; the generator changes what answers.
 	probe bool
+	// odd: the few odd hostnames (c10OddHosts) this history uses.
+	odd []string
 }
 
 func (g *c10Gen) anyIP() uint32 {
@@ -727,6 +743,9 @@ func (g *c10Gen) host() string {
 	if g.genNames && g.r.Chance(1, 5) {
 		ip := g.conf.Start + uint32(g.r.Intn(int(g.conf.End-g.conf.Start+1)))
 		return strings.ReplaceAll(c10Addr(ip).String(), ".", "-")
+	}
+	if len(g.odd) > 0 && g.r.Chance(1, 5) {
+		return vfPick(g.r, g.odd)
 	}
 	return vfPick(g.r, c10Hosts)
 }
@@ -930,6 +949,11 @@ func c10Run(t *testing.T, out *vfOut, h c10History) {
 	}
 	for _, o := range h.ops {
 		if nn, nerr := normalizeHostname(o.Host); nerr == nil && nn != "" {
+			hostSet[nn] = true
+		}
+	}
+	for _, n := range h.hosts {
+		if nn, nerr := normalizeHostname(n); nerr == nil && nn != "" {
 			hostSet[nn] = true
 		}
 	}
@@ -1541,6 +1565,10 @@ func TestVerifC10(t *testing.T) {
 		h := c10History{conf: cf, tag: fmt.Sprintf("random-%d", i)}
 		// Half of the histories run with probing (when it is available), with
 		// up to three pool addresses answering from the start.
+		for k, hr := 0, r.Fork(78); k < 3; k++ {
+			g.odd = append(g.odd, vfPick(hr, c10OddHosts))
+		}
+		h.hosts = g.odd
 		if pr := r.Fork(77); c10Probe && pr.Bool() {
 			g.probe, h.icmp = true, pr.Chance(4, 5)
 			for k := pr.Intn(4); k > 0; k-- {
@@ -1634,6 +1662,12 @@ func c10Prelude(m []uint64) (hs []c10History) {
 		busyOn(s+2), dec(1, s+2), disc(1))
 	addP("blocklist-reused", []uint32{s}, disc(1), sel(1, s+1, "a"), disc(2), sel(2, s+2, "b"), tick(3700), busyOff(s), disc(3),
 		sel(3, s, "c"), restart)
+	for k := 0; k+3 <= len(c10OddHosts); k += 3 {
+		n := c10OddHosts[k : k+3]
+		hs = append(hs, c10History{conf: cf, tag: fmt.Sprintf("odd-hostnames-%d", k/3), hosts: n, ops: []c10Op{
+			disc(1), sel(1, s, n[0]), disc(2), sel(2, s+1, n[1]), disc(3), sel(3, s+2, n[2]), renew(1, s, n[1]), renew(2, s+1, n[2]),
+			st(c10StaticAdd, 4, cf.End+2, n[0]), st(c10StaticUpdate, 4, cf.End+3, n[1]), st(c10StaticAdd, 4, cf.End+4, n[2]), restart}})
+	}
 	setc := func(a, b uint32) c10Op { return c10Op{Kind: c10SetConfig, PoolStart: a, PoolEnd: b} }
 	add("set-config", disc(1), sel(1, s, "alpha"), st(c10StaticAdd, 2, cf.End+3, "nas"), disc(3), sel(3, s+1, "gamma"),
 		setc(s, cf.End), renew(1, s, "alpha"), setc(s+1, cf.End+2), disc(1), sel(1, s+2, "alpha"), disc(4),
